@@ -69,6 +69,7 @@ UNITS = [
      # initial contents of the static atom cache, read from the compiled initialisers (ids as uint32 bit patterns)
      [("atom_id_cache_init", "((uint32_t *)atom_id_cache)", "ATOM_CACHE_SIZE"),
       ("atom_obj_cache_init", "((uintptr_t *)atom_obj_cache)", "ATOM_CACHE_SIZE")]),
+    ("Mcache", '#include "hdf_priv.h"\n#include "mcache_priv.h"\n', ["HASHSIZE","DEF_PAGESIZE","DEF_MAXCACHE","MCACHE_DIRTY","MCACHE_PINNED","ELEM_READ","ELEM_WRITTEN","ELEM_SYNC"], []),
     ("Bitvect", '#include "hdf_priv.h"\n#include "%s/bitvect.c"\n' % HS,
      ["BV_DEFAULT_BITS", "BV_CHUNK_SIZE", "BV_BASE_BITS"],
      [("bv_first_zero", "bv_first_zero", "256"), ("bv_bit_value", "bv_bit_value", "8"), ("bv_bit_mask", "bv_bit_mask", "9")]),
@@ -82,6 +83,7 @@ MACROS = [
     ("ATOM_TO_GROUP", "hdf/src/atom.c", "ATOM_TO_GROUP"),
     ("ATOM_TO_LOC", "hdf/src/atom.c", "ATOM_TO_LOC"),
     ("MAKE_ATOM", "hdf/src/atom.c", "MAKE_ATOM"),
+    ("HASHKEY", "hdf/src/mcache_priv.h", "HASHKEY"),
 ]
 
 
@@ -308,7 +310,7 @@ def main():
         digest[fn] = hashlib.sha256(txt.encode()).hexdigest()[:16]
     for rel in ["hdf/src/hfile_priv.h", "hdf/src/hdf.h", "hdf/src/htags.h", "hdf/src/hlimits.h", "hdf/src/hntdefs.h", "hdf/src/crle.c",
                 "hdf/src/crle_priv.h", "hdf/src/atom.c", "hdf/src/bitvect.c", "hdf/src/bitvect_priv.h", "hdf/src/vg_priv.h", "hdf/src/hcomp.h", "hdf/src/mfan_priv.h", "hdf/src/mfan.c", "hdf/src/vgp.c", "hdf/src/vg.c",
-                "hdf/src/dfkswap.c", "hdf/src/dfknat.c", "hdf/src/dfconv.c"]:
+                "hdf/src/mcache.c", "hdf/src/mcache_priv.h", "hdf/src/dfkswap.c", "hdf/src/dfknat.c", "hdf/src/dfconv.c"]:
         p = os.path.join(repo, rel)
         if os.path.exists(p):
             sources[rel] = sha(p)
